@@ -104,43 +104,23 @@ def random_tr(ctx):
     try:
         out = random_transfer(winner, RealFraction(fpv), ballots, T)
     except Exception as exc:
-        tag = "[surplus>transferable]" if ctx.notes.get("sample_overdraw") else ""
+        transferable = sum(ws[i] for i, (s_, w_) in enumerate(rows) if [c for c in s_[0]] == [winner] and C.key_of(C.img(s_, {winner})))
+        tag = "[surplus>transferable]" if fpv - T > transferable else ""
         ctx.fail(f"c03:random-raises:{type(exc).__name__}@{where_raised(exc)}{tag}", str(exc)[:200])
         return {"kind": "exc"}
-    calls = [c for c in ctx.rlog if c["fn"] == "sample"]
-    if len(calls) != 1:
-        ctx.fail("c03:random-sample-calls", f"{len(calls)} sample() calls")
-        return {"kind": "bad"}
-    call = calls[0]
-    # population: one unit ballot per unit of weight of each transferable led ballot
+    # what the winner's ballots can give: one whole ballot per unit of weight of each transferable led ballot
     want_units = {}
     for i, (s, w) in enumerate(rows):
         if [c for c in s[0]] == [winner]:
             k = C.key_of(C.img(s, {winner}))
             if k:
                 want_units[k] = want_units.get(k, 0) + ws[i]
-    got_units = {}
-    for b in call["population"]:
-        k = tuple(tuple(sorted(p)) for p in b.ranking)
-        got_units[k] = got_units.get(k, 0) + 1
-        if b.weight != 1:
-            ctx.fail("c03:random-population-not-unit-ballots", f"{k} weight {b.weight}")
-            return {"kind": "bad"}
-    if got_units != want_units:
-        ctx.fail("c03:random-population", f"sampled from {got_units}, transferable units are {want_units}")
-        return {"kind": "bad"}
-    if call["k"] != fpv - T or (ctx.canary == "sample-one-more" and True):
-        ctx.fail("c03:random-sample-size", f"k={call['k']} but tally-threshold={fpv - T}")
-        return {"kind": "bad"}
-    expected = {}
+    others = {}
     for i, (s, w) in enumerate(rows):
         if [c for c in s[0]] != [winner]:
             k = C.key_of(C.img(s, {winner}))
             if k:
-                expected[k] = expected.get(k, 0) + ws[i]
-    for b in call["outcome"]:
-        k = tuple(tuple(sorted(p)) for p in b.ranking)
-        expected[k] = expected.get(k, 0) + 1
+                others[k] = others.get(k, 0) + ws[i]
     got = {}
     for b in out:
         k = tuple(tuple(sorted(p)) for p in b.ranking) if b.ranking else ()
@@ -148,9 +128,139 @@ def random_tr(ctx):
             ctx.fail("c03:winner-still-listed", f"{k}")
             return {"kind": "bad"}
         got[k] = add(got[k], b.weight) if k in got else num(b.weight)
-    ctx.require(stv.maps_equal(got, {k: RealFraction(v) for k, v in expected.items()}), "c03:random-weights",
-                "returned ballots are not the non-led ballots plus the drawn unit ballots")
-    return {"kind": "ok", "T": T, "fpv": fpv}
+    # (a) whatever random API was used: the transferred ballots are a sub-collection of the winner's transferable
+    # ballots, of total size tally - threshold (whole ballots: integer counts)
+    drawn = {}
+    for k in set(got) | set(others):
+        d = sub(got.get(k, 0), others.get(k, 0))
+        dv = None
+        for n in range(0, fpv + 1):
+            if ctx.truth(eq(d, n)):
+                dv = n
+                break
+        if dv is None:
+            ctx.fail("c03:random-not-whole-ballots", f"{k}: transferred weight {core.show(d)} is not a whole number of the winner's ballots")
+            return {"kind": "bad"}
+        if dv:
+            drawn[k] = dv
+    over = [k for k, n in drawn.items() if n > want_units.get(k, 0)]
+    if over or (ctx.canary == "sample-one-more" and True):
+        ctx.fail("c03:random-not-a-subcollection", f"{over[:1]}: {drawn} drawn out of {want_units}")
+        return {"kind": "bad"}
+    if sum(drawn.values()) != fpv - T:
+        ctx.fail("c03:random-sample-size", f"{sum(drawn.values())} ballots transferred but tally-threshold={fpv - T}")
+        return {"kind": "bad"}
+    ctx.require(True, "c03:random-subcollection")  # (a) decided on this path (weights and counts are concrete after the forks)
+    # (b) when the selection is a single random.sample() call, its contract (uniform k-subsets of the population)
+    # settles "equally likely" provided the population is exactly the transferable unit ballots; any other way of
+    # drawing is judged by the inclusion-probability law (c03.random_law)
+    calls = list(ctx.rlog)
+    if len(calls) == 1 and calls[0]["fn"] == "sample" and all(hasattr(b, "ranking") for b in calls[0]["population"]):
+        call = calls[0]
+        got_units = {}
+        for b in call["population"]:
+            k = tuple(tuple(sorted(p)) for p in b.ranking)
+            got_units[k] = add(got_units[k], b.weight) if k in got_units else num(b.weight)
+        if set(got_units) != set(want_units) or not all(ctx.truth(eq(got_units[k], want_units[k])) for k in want_units):
+            ctx.fail("c03:random-population", f"sampled from {dict((k, core.show(v)) for k, v in got_units.items())}, transferable units are {want_units}")
+            return {"kind": "bad"}
+    return {"kind": "ok", "T": T, "fpv": fpv, "drawn": sorted((str(k), n) for k, n in drawn.items()), "units": sorted((str(k), n) for k, n in want_units.items())}
+
+
+@harness("c03.random_law")
+def random_law(ctx):
+    """law unit: integer weights 1..W per ballot (the cells), threshold T fixed by the task; outcome = how many
+    unit ballots of each continuing ranking were transferred.  Checked by check_inclusion."""
+    from votekit.elections import random_transfer
+    P = ctx.params
+    winner, W, T = P["winner"], P["W"], P["T"]
+    ballots, rows = mk_ballots(ctx, P["specs"], integer_w=W)
+    ws = {}
+    for i, (s, w) in enumerate(rows):
+        for k in range(1, W + 1):
+            if ctx.truth(eq(w, k)):
+                ws[i] = k
+                break
+    fpv = sum(ws[i] for i, (s, w) in enumerate(rows) if [c for c in s[0]] == [winner])
+    units, others = {}, {}
+    for i, (s, w) in enumerate(rows):
+        k = C.key_of(C.img(s, {winner}))
+        if not k:
+            continue
+        tgt = units if [c for c in s[0]] == [winner] else others
+        tgt[str(k)] = tgt.get(str(k), 0) + ws[i]
+    if fpv < T or sum(units.values()) < fpv - T:
+        return {"kind": "excluded"}  # not a winner's pile / more surplus than transferable ballots (F4, C03 unit harness)
+    try:
+        out = random_transfer(winner, RealFraction(fpv), ballots, T)
+    except Exception:
+        return {"kind": "excluded"}  # judged by c03.random
+    got = {}
+    for b in out:
+        k = str(tuple(tuple(sorted(p)) for p in b.ranking)) if b.ranking else "()"
+        wv = None
+        for n in range(0, sum(ws.values()) + 1):
+            if ctx.truth(eq(b.weight, n)):
+                wv = n
+                break
+        if wv is None:
+            return {"kind": "excluded"}
+        got[k] = got.get(k, 0) + wv
+    drawn = {k: got.get(k, 0) - others.get(k, 0) for k in set(got) | set(others) | set(units)}
+    return {"kind": "draw", "drawn": sorted((k, n) for k, n in drawn.items() if n), "units": sorted(units.items()), "surplus": fpv - T}
+
+
+def check_inclusion(law, outcomes, cvars, params, canary, sc):
+    """every transferable ballot of the winner is equally likely to be chosen: for each continuing ranking k the
+    expected number of transferred unit ballots is surplus * units_k / units_total"""
+    import z3
+    from sx.core import lift
+    checks = []
+    first = next(iter(outcomes.values()))
+    units = dict((k, n) for k, n in first["units"])
+    n_units, surplus = sum(units.values()), first["surplus"]
+    for k, u in sorted(units.items()):
+        got = z3.RealVal(0)
+        for key, o in outcomes.items():
+            d = dict((a, b) for a, b in o["drawn"]).get(k, 0)
+            if d:
+                got = got + lift(law[key]) * d
+        want = RealFraction(surplus * u, n_units)
+        if canary == "first-ballots-preferred":
+            want = RealFraction(surplus, len(units))
+        checks.append((f"expected transfers of {k}", got, z3.RealVal(str(want))))
+    return checks
+
+
+def run_random_law(task):
+    from . import laws
+    import z3
+    W = task["params"]["W"]
+    return laws.run_law(task, None, lambda vs: [z3.Or(*[v == k for k in range(1, W + 1)]) for n, v in vs.items() if n.startswith("w")],
+                        checker=check_inclusion)
+
+
+@harness("c03.random_law_replay")
+def random_law_replay(ctx):
+    """conc: enumerate every draw of the real random_transfer at the model's weights and compare the expected
+    number of transferred ballots per continuing ranking with surplus * units / total"""
+    if ctx.sym:
+        ctx.require(True, "noop")
+        return {}
+    from . import laws
+    runs = laws.enumerate_conc("c03.random_law", ctx.params, ctx.model)
+    exp, units, surplus = {}, None, None
+    for o, p in runs:
+        if o is None or o.get("kind") != "draw":
+            return {"kind": "excluded"}
+        units, surplus = dict((k, n) for k, n in o["units"]), o["surplus"]
+        for k, n in o["drawn"]:
+            exp[k] = exp.get(k, RealFraction(0)) + RealFraction(p if p is not None else 1) * n
+    tot = sum(units.values())
+    for k, u in units.items():
+        if exp.get(k, 0) != RealFraction(surplus * u, tot):
+            raise core.ConcViolation("law:random_transfer_inclusion", f"{k}: expected number of transferred ballots {exp.get(k, 0)} but surplus*units/total = {RealFraction(surplus * u, tot)}")
+    return {"kind": "ok"}
 
 
 SPECS_Q = [
@@ -182,6 +292,21 @@ def tasks(tier, seed):
                 if k <= (3 if q else 4):
                     out.append({"harness": "c03.random", "params": {"winner": "A", "specs": list(sub_), "W": 2 if q else 3},
                                 "sig_keys": ["winner"], "name": f"random {[C.shape_str(s) for s, _ in sub_]}", "weight": 3})
+    # "every transferable ballot is equally likely": inclusion-probability law over all draws (any random API)
+    def law(specs, W, T, **kw):
+        d = {"kind": "call", "module": "props.c03", "func": "run_random_law", "harness": "c03.random_law", "closed_form": "random_transfer_inclusion",
+             "law_label": "random_transfer_inclusion", "replay_harness": "c03.random_law_replay",
+             "params": {"winner": "A", "specs": specs, "W": W, "T": T}, "sig_keys": ["winner"],
+             "name": f"random law T={T} W={W} {[C.shape_str(s) for s, _ in specs]}", "weight": 6, "no_assert_ok": True}
+        d.update(kw)
+        return d
+    LAW = [[("A>B", ""), ("A>C", "")], [("A>B", ""), ("A>C", ""), ("A", "")], [("A>B>C", ""), ("A>C", ""), ("B>A", "")]]
+    if not q:
+        LAW += [[("A>B", ""), ("A>C", ""), ("A>B", "id")], [("A>B>C", ""), ("A>C>B", ""), ("A", ""), ("C>A", "")]]
+    for sp in LAW:
+        for T in ((1, 2) if q else (1, 2, 3, 4)):
+            out.append(law(_specs(sp), 2 if q else 3, T))
+    out.append(law(_specs(LAW[0]), 2, 1, canary="first-ballots-preferred", name="canary:first-ballots-preferred"))
     # part B: conservation on every round of real STV runs
     out += [t for t in c02.tasks(tier, seed, checks=("c03",), canaries=["conservation-forgets-exhausted"])]
     out.append({"harness": "c03.fractional", "params": {"winner": "A", "specs": _specs(SPECS_Q[0]), "as_tuple": False},
